@@ -331,7 +331,7 @@ class _ActionConfigLoad(Action):
             with change_to_path_dir(cfg_path):
                 cfg = parser._apply_actions(cfg, parent_key=self.dest)
             return cfg
-        except (TypeError,) + get_loader_exceptions() as ex:
+        except (TypeError, UnicodeDecodeError) + get_loader_exceptions() as ex:
             str_ex = indent_text(f"- {ex}")
             raise TypeError(f'Parser key "{self.dest}":\nUnable to load config {value!r}\n{str_ex}') from ex
 
